@@ -9,6 +9,9 @@ S2C: every sequence of start / stop / done / tick up to length L enumerated by T
      virtual clocks; deadlines are observed at IOLoop.add_timeout.  Ticks map to dyadic floats
      (1 s, 2^-19 s at epoch scale, 0.25 s, timedelta periods) so float arithmetic is exact.
 C2S: seeded random long runs recorded from the real object and validated by TLC.
+Jitter: specs/loop/PeriodicJitter.tla - the same machine with the random draw of _update_next as an
+     action argument (jitter = 1/2, dyadic draws scripted through tornado.ioloop.random): MC, S2C
+     (divergence only if under both draw conventions r and 1 - r) and C2S (draw inferred by TLC).
 Proof: specs/loop/PeriodicProof.tla (TLAPS) - the arithmetic facts for all integers.
 
 Binding demonstrated during development (scratch worktree, see notes/loop.md): ceil instead of
@@ -51,6 +54,12 @@ def periodic_replay_one(extra, path, variant):
 def periodic_replayer(extra, path):
     for v in range(_NVAR):
         r = periodic_replay_one(extra, path, v)
+        if r is not None and extra["cfg"].get("jit"):
+            # which random number maps to which end of the jitter range is not part of C39: a path
+            # diverges only if it diverges under both conventions (r and 1 - r)
+            r2 = periodic_replay_one(dict(extra, cfg=dict(extra["cfg"], mirror=1)), path, v)
+            if r2 is None:
+                r = None
         if r is not None:
             return r
     return None
